@@ -23,11 +23,12 @@
    view (before = after) is emitted once per descriptor as a PD line.  The texts of
    the set-up commands and of the mutators are part of the spec (fields txt), the
    engine only concatenates them into   setup; dump; CONTEXT{ muts; dump }; wait; dump. *)
-EXTENDS Integers, Sequences, FiniteSets, TLC, Json
+EXTENDS Integers, Sequences, FiniteSets, TLC, Json, IOUtils
 
 CONSTANTS MaxLen,      \* maximal number of mutators run by the child
           Buggy,       \* TRUE = aliasing defect switched on (self-test)
-          Wide         \* FALSE: curated parent descriptors (quick); TRUE: full product
+          Wide,        \* FALSE: curated parent descriptors (quick); TRUE: the thorough set
+          Replay       \* TRUE: walk exactly the behaviours listed in the file $VERIF_TRACE
 
 VARIABLES pd,          \* parent descriptor (constant after Init)
           kind,        \* how the child was spawned: "share" or "copy" (constant after Init)
@@ -37,8 +38,9 @@ VARIABLES pd,          \* parent descriptor (constant after Init)
           pfr,         \* parent's frames, bottom (global) first
           pm,          \* parent's non-variable state (functions, aliases, options, cwd, params, OPTIND)
           cov,         \* child's overlay frame
-          cm           \* child's copy of the non-variable state
-vars == <<pd, kind, muts, heap, np, pfr, pm, cov, cm>>
+          cm,          \* child's copy of the non-variable state
+          tr           \* 0, or (Replay) the index of the listed behaviour being walked
+vars == <<pd, kind, muts, heap, np, pfr, pm, cov, cm, tr>>
 
 Names  == <<"s", "t", "a", "m", "o">>          \* dumped variables, in dump order
 NameSet == {Names[i] : i \in 1..Len(Names)}
@@ -58,8 +60,10 @@ Kinds == {"share", "copy"}
 \* A value is a sequence of atoms (TLC strings are atomic); the engine joins them.
 Unset == [k |-> "u", v |-> <<>>, ref |-> 0, x |-> FALSE, r |-> FALSE]
 NoI   == [i \in {} |-> <<>>]
-ICell(f) == [t |-> "i", ie |-> f, ae |-> NoI]   \* indexed: index -> value
-ACell(f) == [t |-> "A", ie |-> NoI, ae |-> f]   \* associative: key -> value
+\* plen is only used by the deviation Dev_AppendInPlace below (-1 everywhere else): the number of
+\* leading elements of the cell that the parent's shorter slice headers still see.
+ICell(f) == [t |-> "i", ie |-> f, ae |-> NoI, plen |-> -1]   \* indexed: index -> value
+ACell(f) == [t |-> "A", ie |-> NoI, ae |-> f, plen |-> -1]   \* associative: key -> value
 
 MapSet(f, k, v) == [j \in (DOMAIN f) \cup {k} |-> IF j = k THEN v ELSE f[j]]
 MapDel(f, k)    == [j \in (DOMAIN f) \ {k} |-> f[j]]
@@ -82,7 +86,8 @@ ReachF(frames) == UNION { { frames[i][n].ref : n \in DOMAIN frames[i] } : i \in 
 \* ---------------------------------------------------------------- copy on write
 \* make the cell of reference c writable by the child: cells above np are its own
 Own(st, c) == IF c > np THEN [st |-> st, c |-> c]
-              ELSE [st |-> [st EXCEPT !.heap = Append(st.heap, st.heap[c])], c |-> Len(st.heap) + 1]
+              ELSE [st |-> [st EXCEPT !.heap = Append(st.heap, [st.heap[c] EXCEPT !.plen = -1])],
+                    c |-> Len(st.heap) + 1]
 New(st, cell) == [st |-> [st EXCEPT !.heap = Append(st.heap, cell)], c |-> Len(st.heap) + 1]
 
 Arr(rc, c)  == [rc EXCEPT !.k = "i", !.v = <<>>, !.ref = c]
@@ -99,21 +104,19 @@ SetElem(st, n, i, val) ==
 
 \* Dev_AppendInPlace: what interp.Runner.assignVal is known to compute for `name+=value` on an
 \* indexed array whose storage is still the parent's (vars.go: `prev.List[0] += s`, and
-\* internal.SetIndexedElem inserting into prev.List/prev.Indexes when these have spare capacity).
-\* If element 0 exists the shared cell is written; otherwise the value is inserted in front and
-\* the parent, whose slice headers keep their length, sees the first elements of the shifted
-\* storage under the first indices.  Used only when Buggy = TRUE: as the model's self-test
-\* (Isolation must fail) and to recognise the known finding by its exact effect.
+\* internal.SetIndexedElem inserting into prev.List/prev.Indexes, which have spare capacity here).
+\* If element 0 exists the shared cell is written.  Otherwise the value is inserted in front of the
+\* shared storage: the child sees the whole of it, the parent -- whose slice headers keep their
+\* length plen -- sees its first plen elements under the first plen indices; child and parent
+\* go on sharing that storage.  Used only when Buggy = TRUE: as the model's self-test (Isolation
+\* must fail) and to recognise the known finding by its exact effect.
 Dev_AppendInPlace(st, n, val) ==
   LET rc == Cur(st, n)
-      f  == st.heap[rc.ref].ie IN
+      cl == st.heap[rc.ref]
+      f  == cl.ie IN
   IF 0 \in DOMAIN f THEN [st EXCEPT !.heap[rc.ref].ie = MapSet(@, 0, f[0] \o val)]
-  ELSE LET ks == SortedKeys(DOMAIN f)
-           nk == <<0>> \o ks
-           nv == <<val>> \o [p \in 1..Len(ks) |-> f[ks[p]]]
-           shifted == [j \in {nk[p] : p \in 1..Len(ks)} |-> nv[CHOOSE p \in 1..Len(ks) : nk[p] = j]]
-           o  == New([st EXCEPT !.heap[rc.ref].ie = shifted], ICell(MapSet(f, 0, val)))
-       IN Put(o.st, n, Arr(rc, o.c))
+  ELSE [st EXCEPT !.heap[rc.ref] = [cl EXCEPT !.ie = MapSet(f, 0, val),
+                                             !.plen = IF cl.plen = -1 THEN Cardinality(DOMAIN f) ELSE cl.plen]]
 
 DelElem(st, n, i) ==
   LET rc == Cur(st, n) IN
@@ -235,7 +238,8 @@ Enabled(st, c, mu) ==
     [] mu.op = "appelem"   -> Writable(st, mu.n) /\ KindIn(st, mu.n, {"u", "s", "i"})
     [] mu.op = "assignarr" -> Writable(st, mu.n) /\ KindIn(st, mu.n, {"u", "s", "i"})
     [] mu.op = "unsetelem" -> Writable(st, mu.n) /\ KindIn(st, mu.n, {"u", "i"})
-    [] mu.op = "unset"     -> Writable(st, mu.n)
+    \* (the interpreter keeps the attributes of a declared-but-unset variable on `unset`; not C27)
+    [] mu.op = "unset"     -> Writable(st, mu.n) /\ (Cur(st, mu.n).k = "u" => Cur(st, mu.n) = Unset)
     [] mu.op = "setkey"    -> Writable(st, mu.n)
     [] mu.op = "unsetkey"  -> Writable(st, mu.n) /\ KindIn(st, mu.n, {"u", "i", "A"})
     [] mu.op = "declA"     -> Cur(st, mu.n) = Unset
@@ -288,24 +292,30 @@ ApplyMisc(c, mu) ==
     [] mu.op = "optind"    -> [c EXCEPT !.oi = mu.i]
     [] OTHER -> c
 
+\* Replay mode (used to aim the deviation model at the behaviours on which the code failed):
+\* one JSON object {id, pd, kind, muts} per line.
+Listed == IF Replay THEN ndJsonDeserialize(IOEnv.VERIF_TRACE) ELSE <<>>
 Step(mu) ==
   LET st == [cov |-> cov, heap |-> heap] IN
   /\ Len(muts) < MaxLen
+  /\ tr # 0 => LET want == Listed[tr].muts IN Len(muts) < Len(want) /\ want[Len(muts) + 1] = mu.txt
   /\ Enabled(st, cm, mu)
   /\ LET s1 == ApplyVar(st, mu)
          s2 == IF mu.op = "getopts" THEN Assign(s1, "o", V(GetoptsLetter(cm.oi))) ELSE s1 IN
      /\ cov' = s2.cov /\ heap' = s2.heap
   /\ cm' = ApplyMisc(cm, mu)
   /\ muts' = Append(muts, mu.txt)
-  /\ UNCHANGED <<pd, kind, np, pfr, pm>>
+  /\ UNCHANGED <<pd, kind, np, pfr, pm, tr>>
 
 Next == LET MT == Mutators IN \E i \in 1..Len(MT) : Step(MT[i])
 
 \* ---------------------------------------------------------------- observable views
 Flags(rc) == (IF rc.k = "i" THEN <<"a">> ELSE IF rc.k = "A" THEN <<"A">> ELSE <<>>)
              \o (IF rc.r THEN <<"r">> ELSE <<>>) \o (IF rc.x THEN <<"x">> ELSE <<>>)
-VarView(rc, hp) ==
-  LET ks == IF rc.k = "i" THEN SortedKeys(DOMAIN hp[rc.ref].ie) ELSE <<>> IN
+\* asParent: apply the plen truncation of Dev_AppendInPlace (a no-op unless Buggy)
+VarView(rc, hp, asParent) ==
+  LET ks0 == IF rc.k = "i" THEN SortedKeys(DOMAIN hp[rc.ref].ie) ELSE <<>>
+      ks  == IF asParent /\ rc.k = "i" /\ hp[rc.ref].plen >= 0 THEN SubSeq(ks0, 1, hp[rc.ref].plen) ELSE ks0 IN
   [ k     |-> rc.k, at |-> Flags(rc), v |-> rc.v,
     keys  |-> ks,
     vals  |-> [p \in 1..Len(ks) |-> hp[rc.ref].ie[ks[p]]],
@@ -319,12 +329,13 @@ MiscView(c) ==
     \* the dump probes nullglob by globbing a pattern without matches
     globprobe |-> IF "noglob" \in c.opts \/ "nullglob" \notin c.opts THEN "N" ELSE "",
     cwd |-> c.cwd, params |-> c.params, oi |-> c.oi ]
-View(frames, hp, c) == [ vars |-> [i \in 1..Len(Names) |-> VarView(Lookup(frames, Names[i]), hp)],
-                         misc |-> MiscView(c) ]
+View(frames, hp, c, asParent) ==
+  [ vars |-> [i \in 1..Len(Names) |-> VarView(Lookup(frames, Names[i]), hp, asParent)],
+    misc |-> MiscView(c) ]
 
-ParentView == View(pfr, heap, pm)
-GlobalView == View(<<pfr[1]>>, heap, pm)        \* what is seen again after pf returns
-ChildView  == View(Chain, heap, cm)
+ParentView == View(pfr, heap, pm, TRUE)
+GlobalView == View(<<pfr[1]>>, heap, pm, TRUE)        \* what is seen again after pf returns
+ChildView  == View(Chain, heap, cm, FALSE)
 
 \* ---------------------------------------------------------------- parent descriptors
 \* s: scalar, a: indexed array, m: associative array, f: spawn inside function pf whose
@@ -332,13 +343,17 @@ ChildView  == View(Chain, heap, cm)
 PD(s, a, m, f, mi) == [s |-> s, a |-> a, m |-> m, f |-> f, mi |-> mi]
 Curated == { PD("plain", "dense",  "assoc", FALSE, "base"),
              PD("exp",   "sparse", "unset", FALSE, "alt"),
-             PD("ro",    "unset",  "assoc", FALSE, "base"),
-             PD("plain", "sparse", "assoc", TRUE,  "base"),
-             PD("unset", "dense",  "unset", TRUE,  "alt"),
-             PD("exp",   "dense",  "assoc", TRUE,  "alt") }
-AllPD == [s : {"unset", "plain", "exp", "ro"}, a : {"unset", "dense", "sparse"},
-          m : {"unset", "assoc"}, f : BOOLEAN, mi : {"base", "alt"}]
-PDs == IF Wide THEN AllPD ELSE Curated
+             PD("ro",    "unset",  "assoc", TRUE,  "base"),
+             PD("unset", "sparse", "assoc", TRUE,  "alt"),
+             PD("exp",   "dense",  "unset", TRUE,  "base") }
+\* thorough: every combination of s, a and f; m and mi alternate so that every pair of feature
+\* values occurs (24 descriptors instead of the 96 of the full product)
+SVals == <<"unset", "plain", "exp", "ro">>
+AVals == <<"unset", "dense", "sparse">>
+WidePD == { PD(SVals[i], AVals[j], IF (i + j) % 2 = 0 THEN "assoc" ELSE "unset", f,
+               IF (i + (IF f THEN 1 ELSE 0)) % 2 = 0 THEN "base" ELSE "alt") :
+            i \in 1..4, j \in 1..3, f \in BOOLEAN }
+PDs == IF Wide THEN WidePD ELSE Curated
 
 SRec(s) == CASE s = "unset" -> Unset
              [] s = "plain" -> [Unset EXCEPT !.k = "s", !.v = V("v")]
@@ -395,8 +410,9 @@ SetupTxt(d) ==
 \* Spawn(kind): see CtxOf above.
 Flat(frames) == [n \in NameSet |-> Lookup(frames, n)]
 Init ==
-  /\ pd \in PDs
-  /\ kind \in Kinds
+  /\ IF Replay
+     THEN LET L == Listed IN \E i \in 1..Len(L) : tr = i /\ pd = L[i].pd /\ kind = L[i].kind
+     ELSE tr = 0 /\ pd \in PDs /\ kind \in Kinds
   /\ LET i0 == InitFor(pd) IN
      /\ heap = i0.heap /\ np = Len(i0.heap) /\ pfr = i0.pfr /\ pm = i0.pm /\ cm = i0.pm
      /\ cov = IF kind = "copy" THEN Flat(i0.pfr) ELSE [n \in {} |-> Unset]
@@ -406,7 +422,7 @@ Spec == Init /\ [][Next]_vars
 
 \* ---------------------------------------------------------------- what TLC checks
 \* C27 itself: nothing the child does is visible in the parent
-PView0 == LET i0 == InitFor(pd) IN View(i0.pfr, i0.heap, i0.pm)   \* the view when the child was spawned
+PView0 == LET i0 == InitFor(pd) IN View(i0.pfr, i0.heap, i0.pm, TRUE)   \* the view when the child was spawned
 Isolation == ParentView = PView0
 \* contract rule: cells 1..np are never written, re-typed or dropped
 CellDiscipline == [][ /\ Len(heap') >= Len(heap)
@@ -421,7 +437,7 @@ HeapWF == /\ ReachF(pfr) \subseteq 1..np
                /\ rc.ref # 0 => heap[rc.ref].t = rc.k
                /\ (rc.k = "s") \/ rc.v = <<>>
 \* parent frames and parent misc are not variables any child action may touch
-Frozen == [][pfr' = pfr /\ pm' = pm /\ np' = np /\ pd' = pd /\ kind' = kind]_vars
+Frozen == [][pfr' = pfr /\ pm' = pm /\ np' = np /\ pd' = pd /\ kind' = kind /\ tr' = tr]_vars
 \* sanity of the model itself: a mutator list that assigns has an effect in the child
 \* (guards against a vacuous model in which nothing ever changes)
 ChildSeesOwnWrites ==
@@ -433,9 +449,9 @@ ChildSeesOwnWrites ==
 EmitPD == (muts = <<>> /\ kind = "share") =>
   PrintT(<<"PD", ToJson([pd |-> pd, setup |-> SetupTxt(pd), pview |-> ParentView,
                           gview |-> GlobalView])>>)
-\* (Buggy = TRUE only) the parent view the known defect produces, where it differs
-EmitDev == (ParentView # PView0) =>
-  PrintT(<<"DEV", ToJson([pd |-> pd, kind |-> kind, muts |-> muts, pview |-> ParentView])>>)
+\* (Buggy = TRUE, Replay = TRUE) the parent view the known defect produces on a listed behaviour
+EmitDev == (tr # 0 /\ Len(muts) = Len(Listed[tr].muts)) =>
+  PrintT(<<"DEV", ToJson([id |-> Listed[tr].id, pview |-> ParentView])>>)
 \* Dev_LastPipe: the interpreter is known to run the last stage of a pipeline in the parent
 \* shell (bash does so only under `shopt -s lastpipe`); what it then shows as the parent's
 \* state after the pipeline is the child view.
